@@ -97,7 +97,7 @@ func main() {
 	r.Assume("'nothing visible' (no root after abort and reopen) is asserted after submissions that were all rejected. After an aborted restore of HONEST chunks both backends keep answering HasRoot=true and list the root in GetRootsForVersion as a pending (never as a finalized) root, GetLatestVersion stays empty: this is outside the property (nothing of a rejected chunk, nothing visible as finalized) and is recorded as an observation only (coverage.observation_root_listed_after_abort, counters observed/...)")
 
 	rn := &runner{r: r, nParams: r.Pick(6, 20), nDeep: r.Pick(6, 4), maxKeys: r.Pick(1200, 5000), limit: r.Pick(12, 32), stats: stats{}}
-	nTrees := r.Pick(60, 600)
+	nTrees := r.Pick(60, 500)
 
 	if r.ReplayFile != "" {
 		var doc struct {
@@ -273,8 +273,14 @@ func (rn *runner) runTree(ti int, onlyParam int) {
 		if prng.IntN(3) == 0 {
 			sc = sizeClasses[prng.IntN(len(sizeClasses))]
 		}
-		if r.Quick() && len(m) > 700 && (sc == "1" || sc == "tiny") {
-			sc = "small" // keep the number of chunks of the largest quick trees bounded
+		// Keep the number of chunks (each restored chunk is one database batch, several times per
+		// parameter set) of the largest trees bounded.
+		bound := r.Pick(700, 1500)
+		if len(m) > bound && (sc == "1" || sc == "tiny") {
+			sc = "small"
+		}
+		if len(m) > 2*bound && sc == "small" {
+			sc = "mid"
 		}
 		tc := threadClasses[(ti/3+p*2)%len(threadClasses)]
 		if prng.IntN(3) == 0 {
